@@ -21,6 +21,11 @@ import c01
 import common
 import vlib
 
+try:                      # component part: the timing CU's vector memory path (spec/vmem)
+    import c02vmem
+except ImportError:
+    c02vmem = None
+
 LEVEL = 'exploration'
 RULE = ('case = one program (shipped workload, size tuple, architecture) run once in emulation and once on a timing platform '
         '(GPU model x knob set); the pair is compared on every live device buffer, on the per-wavefront executed (pc, opcode) '
@@ -210,6 +215,8 @@ def signature(ctx, drv, e, t, d, idx):
 
 def run(ctx, selftest=False):
     thorough = ctx.tier == 'thorough'
+    if c02vmem is not None:
+        c02vmem.run_component(ctx)
     drv = ctx.go_build('sysrun')
     progs, sampled = programs(ctx, thorough)
     if not thorough:
@@ -312,6 +319,8 @@ def run(ctx, selftest=False):
 
 def replay(ctx, path):
     rp = json.load(open(path))['replay']
+    if c02vmem is not None and isinstance(rp.get('driver'), dict) and rp['driver'].get('cmd') == 'c02vmem':
+        return c02vmem.replay_component(ctx, path)
     drv = ctx.go_build('sysrun')
     c = rp['case']
     e = c01.run_case(ctx, drv, 'rp_e', dict(c, c=emu_class(c['c']['arch']), knobs=''), extras('e'), verify=False, keep=('insts.json',))
